@@ -138,6 +138,22 @@ func keyMutations(r *fw.Rand) []mut {
 		mut{"key-rsa-jwk-without-n", false, func(m map[string]interface{}) { j := cloneMap(rsaJWK); delete(j, "n"); m["publicKeyJwk"] = j }},
 		mut{"key-rsa-jwk-without-e", false, func(m map[string]interface{}) { j := cloneMap(rsaJWK); delete(j, "e"); m["publicKeyJwk"] = j }},
 		mut{"key-purposes-empty-list", false, func(m map[string]interface{}) { m["purposes"] = []interface{}{} }},
+		mut{"key-id-empty-with-kid-in-jwk", false, func(m map[string]interface{}) {
+			m["id"] = ""
+			if j, ok := m["publicKeyJwk"].(map[string]interface{}); ok {
+				j["kid"] = "key1"
+			}
+		}},
+		mut{"key-id-missing-with-kid-in-jwk", false, func(m map[string]interface{}) {
+			delete(m, "id")
+			if j, ok := m["publicKeyJwk"].(map[string]interface{}); ok {
+				j["kid"] = "key1"
+			}
+		}},
+		mut{"key-jwk-okp-without-crv", false, func(m map[string]interface{}) {
+			m["type"] = gen.TEd2018
+			m["publicKeyJwk"] = map[string]interface{}{"kty": "OKP", "x": "11qYAYKxCrfVS_7TyWQHOg7hcvPapiMlrwIaaPcHURo"}
+		}},
 		mut{"key-purposes-null", false, func(m map[string]interface{}) { m["purposes"] = nil }},
 		mut{"key-purposes-not-a-list", false, func(m map[string]interface{}) { m["purposes"] = "authentication" }},
 		mut{"key-extra-member-with-empty-name", false, func(m map[string]interface{}) { m[""] = "x" }},
@@ -404,6 +420,9 @@ func runC13(r *fw.Runner) {
 			labelled{"replace/document-not-object", map[string]interface{}{"action": "replace", "document": []interface{}{}}, false},
 			labelled{"replace/foreign-member", map[string]interface{}{"action": "replace", "document": map[string]interface{}{"publicKeys": []interface{}{baseKey(c.Rng, "k")}, "alsoKnownAs": []interface{}{"did:example:x"}}}, false},
 			labelled{"replace/foreign-member-publicKey", map[string]interface{}{"action": "replace", "document": map[string]interface{}{"publicKey": []interface{}{baseKey(c.Rng, "k")}}}, false},
+			labelled{"replace/foreign-member-id-null", map[string]interface{}{"action": "replace", "document": map[string]interface{}{"publicKeys": []interface{}{baseKey(c.Rng, "k")}, "id": nil}}, false},
+			labelled{"replace/foreign-member-context-null", map[string]interface{}{"action": "replace", "document": map[string]interface{}{"services": []interface{}{baseService("s1")}, "@context": nil}}, false},
+			labelled{"replace/foreign-member-aka-null", map[string]interface{}{"action": "replace", "document": map[string]interface{}{"publicKeys": []interface{}{baseKey(c.Rng, "k")}, "alsoKnownAs": nil}}, false},
 			labelled{"replace/foreign-member-with-empty-name", map[string]interface{}{"action": "replace", "document": map[string]interface{}{"publicKeys": []interface{}{baseKey(c.Rng, "k")}, "": []interface{}{}}}, false},
 			labelled{"replace/only-keys", map[string]interface{}{"action": "replace", "document": map[string]interface{}{"publicKeys": []interface{}{baseKey(c.Rng, "k")}}}, true},
 			labelled{"replace/only-services", map[string]interface{}{"action": "replace", "document": map[string]interface{}{"services": []interface{}{baseService("s1")}}}, true},
